@@ -389,6 +389,12 @@ def snake_removal(self, left=False):
                     or not left_snake and diagram.offsets[cup] != wire
                 if not_yankable:
                     continue
+                # The snake equations only hold when the wire that remains
+                # has the same type on both sides of the cup and cap pair.
+                cap_box, cup_box = diagram.boxes[cap], diagram.boxes[cup]
+                if left_snake and cap_box.cod[1:] != cup_box.dom[:1]\
+                        or not left_snake and cap_box.cod[:1] != cup_box.dom[1:]:
+                    continue
                 return cup, cap, obstructions, left_snake
         return None
 
